@@ -62,3 +62,14 @@ def _make_isinstance(cname):
 
 for _c in ("ReplaceStep", "ReplaceAroundStep", "AddMarkStep", "RemoveMarkStep", "AddNodeMarkStep", "RemoveNodeMarkStep", "AttrStep", "DocAttrStep", "TextNode"):
     globals()["isinstance_" + _c] = _make_isinstance(_c)
+
+
+def _spec_flag(key):
+    def f(t):
+        return bool(t.spec.get(key))
+
+    return f
+
+
+for _k in ("isolating", "defining", "definingAsContext", "definingForContent", "code"):
+    globals()["spec_" + _k] = _spec_flag(_k)
